@@ -17,6 +17,7 @@ ID = "C04"
 LEAN_MODULES = ["FaxVerif.C04.Theorems"]
 LEAN_SOURCES = ["FaxVerif/C04", "FaxVerif/Gen", "FaxVerif/Cpp", "FaxVerif/Linq"]
 DRIVER = cgroup.DRIVER
+SETUP_MODULES = ["FaxVerif.Cpp.Json", "FaxVerif.Gen.Render", "FaxVerif.C03.Spec", "FaxVerif.Cpp.Check"]  # what the driver imports
 THEOREMS = [
     "FaxVerif.C04.first_idiom",
     "FaxVerif.C04.and_lazy",
